@@ -209,6 +209,7 @@ type Summary struct {
 	WallS        float64           `json:"wall_s"`
 	Counts       map[string]int64  `json:"counts"`
 	Inconclusive map[string]int    `json:"inconclusive"`
+	InconclusiveSeeds []string     `json:"inconclusive_seeds,omitempty"`
 	Infra        []string          `json:"infra,omitempty"`
 	Violations   []string          `json:"violation_replays,omitempty"` // replay file paths
 	Rules        map[string]int    `json:"violation_rules,omitempty"`
@@ -292,6 +293,9 @@ func TestSim(t *testing.T) {
 		}
 		if rep.Inconclusive != "" {
 			sum.Inconclusive[rep.Inconclusive]++
+			if len(sum.InconclusiveSeeds) < 20 {
+				sum.InconclusiveSeeds = append(sum.InconclusiveSeeds, fmt.Sprintf("%d:%s", seed, rep.Inconclusive))
+			}
 			if rep.Infra != "" && len(sum.Infra) < 5 {
 				sum.Infra = append(sum.Infra, fmt.Sprintf("seed %d: %s", seed, trunc(rep.Infra, 3000)))
 			}
